@@ -14,7 +14,8 @@ RULE = ("Rule-based state machine holding one long-lived Sampler, QuickSampler a
         "rules: assign a new circuit (random / same unitary with a herald moved, added, removed or with another "
         "photon number / lossy variant), edit the assigned circuit in place (components, loss elements, heralds), "
         "set a circuit Parameter, assign the input state, replace the Source or mutate one of its attributes in "
-        "place, switch backend, replace post-selection / photon_counting / detector. Read rules: "
+        "place, switch backend, replace post-selection / photon_counting / detector, add a rule to the PostSelection "
+        "object that was handed over earlier (also starting from an empty one). Read rules: "
         "probability_distribution, sample() with a seeded global RNG, sample_N_inputs / sample_N_outputs with a "
         "seed (both objects), analyze with and without an expected mapping. Oracle after every read: a freshly "
         "constructed object with the same settings returns the same distribution (1e-9), the identical seeded "
@@ -23,7 +24,7 @@ RULE = ("Rule-based state machine holding one long-lived Sampler, QuickSampler a
         "followed by a sampling call not preceded by a distribution read; distinct = distinct recorded history.")
 ASSUMPTIONS = [
     "only the reconfiguration kinds named in C11 are generated (attribute assignment, in-place mutation of "
-    "circuit / parameters / source); in-place mutation of a PostSelection object after assignment is not",
+    "circuit / parameters / source / detector, rules added to a PostSelection object after it was handed over)",
     "distribution comparison tolerance 1e-9 (sample_N_inputs may renormalise its cached distribution by the "
     "documented truncation error)",
 ]
